@@ -57,6 +57,21 @@ C["C10"] = dict(assumptions=["honest peer stub answers each request with exactly
     H("ZZHonestPiece", "internal/piecedownloader", "<=3 sections, <=64 KiB", None, T(20, 1800, 8, 6)),
 ])
 
+C["C16"]["harnesses"] += [
+    H("ZZDecodePeersCompact", "internal/tracker", "compact peer list: any bytes (len <= 19) give an error or exactly len/6 well-formed addresses", T(30, 600), T(30, 600)),
+    H("ZZUDPParseAnnounce", "internal/tracker/udptracker", "UDP announce reply: any bytes (len <= 38) give an error or header fields + well-formed peers; no panic, no read past the data", T(45, 600), T(45, 600)),
+]
+C["C16"]["assumptions"] += ["encoding/binary.Read/Write modelled per type (fixed-size big-endian layout) in the engine"]
+C["C15"] = dict(assumptions=["encoding/binary.Write modelled per type (fixed-size big-endian layout) in the engine; natively the real encoding/binary runs"], harnesses=[
+    H("ZZUDPAnnouncePacket", "internal/tracker/udptracker", "UDP announce datagram == BEP 15 layout for arbitrary info-hash, peer id (all 20 bytes), counters, event, num-want, port, connection/transaction id, url-data <= 4 bytes", T(45, 600, 4, 4), T(45, 900, 4, 4)),
+])
+C["C08"] = dict(assumptions=["peer replaced by a recorder"], harnesses=[
+    H("ZZNewBytes", "internal/bitfield", "peer bitfield: any bytes (<= 5) and any 32-bit bit count: rejected or consistent (size rule, spare bits cleared, Test == raw bit, Set/Clear local); no panic", T(45, 600), T(45, 600)),
+    H("ZZAllCount", "internal/bitfield", "Count/All exact for bitfields of <= 12 bits", T(45, 600), T(45, 600)),
+    H("ZZInfoBlocks", "internal/infodownloader", "metadata pieces with arbitrary index/size never panic or write outside the buffer (3 steps, <= 3 blocks)", T(20, 900, 4, 5), None),
+    H("ZZDecodePeersCompact", "internal/tracker", "compact peers from PEX/trackers: any bytes (len <= 19): error or well-formed", T(30, 600), T(30, 600)),
+])
+
 for pid, spec in C.items():
     spec = dict(property=pid, **spec)
     json.dump(spec, open(os.path.join(D, pid + ".json"), "w"), indent=1)
